@@ -446,10 +446,14 @@ func (h health) Check(ctx context.Context) bool {
 	if d, ok := ctx.Deadline(); ok {
 		dl = int64(time.Until(d) / time.Microsecond)
 	}
-	res := c == 'h' || c == 'S'
-	h.w.tr.Emit(in.cfg.ID, "health", KV{"n": idx + 1, "res": res, "dl": dl, "slow": c == 's' || c == 'S'})
+	res := c == 'h' || c == 'S' || c == 'x'
+	h.w.tr.Emit(in.cfg.ID, "health", KV{"n": idx + 1, "res": res, "dl": dl, "slow": c == 's' || c == 'S' || c == 'x', "hang": c == 'x'})
 	if c == 's' || c == 'S' {
 		<-ctx.Done()
+		h.w.tr.Emit(in.cfg.ID, "health_done", KV{"n": idx + 1})
+	}
+	if c == 'x' { // a checker that ignores its context and hangs (then reports healthy)
+		time.Sleep(us(in.cfg.HealthHangUs))
 		h.w.tr.Emit(in.cfg.ID, "health_done", KV{"n": idx + 1})
 	}
 	return res
@@ -1497,7 +1501,6 @@ func (w *World) runScript() {
 	}
 	w.mu.Unlock()
 }
-
 
 func (w *World) gateHeld() bool {
 	w.mu.Lock()
